@@ -232,7 +232,17 @@ func layersOf(s *Spec) []Layer {
 			if s.I[i] == 1 {
 				v = ""
 			}
-			l.Tags = append(l.Tags, [2]string{S(2 * i), v})
+			// logtags: adding a tag whose key exists replaces its value in place.
+			replaced := false
+			for j := range l.Tags {
+				if l.Tags[j][0] == S(2*i) {
+					l.Tags[j][1] = v
+					replaced = true
+				}
+			}
+			if !replaced {
+				l.Tags = append(l.Tags, [2]string{S(2 * i), v})
+			}
 		}
 		return []Layer{l}
 	case "assertion":
@@ -359,6 +369,10 @@ func layersOf(s *Spec) []Layer {
 		return []Layer{mk(s, "*gen.UWrapFmtOld", Full, S(0)+": "+causeText())}
 	case "rwrapfull":
 		return []Layer{mk(s, "*gen.RWrapFull", Full, S(0))}
+	case "uhinter":
+		l := mk(s, "*gen.UWrapHinter", Transparent, "")
+		l.Hint, l.Detail = S(0), S(1)
+		return []Layer{l}
 
 	case "join":
 		var ts []string
